@@ -12,6 +12,7 @@ def _load(name):
     return m
 
 sub = _load('u_sub')
+umini = _load('u_mini')
 F_NFA, F_MP, F_IDS = sub.F_NFA, sub.F_MP, sub.F_IDS
 F_DFA, F_PAT = 'scnr/src/internal/compiled_dfa.rs', 'scnr/src/pattern.rs'
 ID_SPECS = sub.ID_SPECS
@@ -32,10 +33,10 @@ INV = '''
 from_nfa = Fn(F_DFA, 'From<Nfa> for CompiledDfa', 'from', ret='r', rename='from__nfa', impl_as='CompiledDfa', qual_as='CompiledDfa', props=P,
     attrs='#[verifier::loop_isolation(false)] #[verifier::allow_complex_invariants]',
     spec='''
-requires sub_wf(nfa), n_off(nfa) == 0
+requires sub_wf(nfa), n_off(nfa) == 0, n_len(nfa) < u32::MAX
 ensures
-    // the automaton handed to the minimizer is the epsilon-elimination automaton of the NFA
-    exists|d0: CompiledDfa, reps: Seq<StateID>| elim_ok(g_nfa(nfa), d0, reps) && d0.terminal_ids@ == seq![TerminalID(nfa.pattern.token_type as u32)] && r == spec_minimize(d0),
+    // the automaton handed to the minimizer is the epsilon-elimination automaton of the NFA; the result is its quotient (contract of Minimizer::minimize, U-mini)
+    exists|d0: CompiledDfa, reps: Seq<StateID>| elim_ok(g_nfa(nfa), d0, reps) && d0.terminal_ids@ == seq![TerminalID(nfa.pattern.token_type as u32)] && min_of(d0, r),
 ''',
     edits=[
         Ins('body_start', None, '''
@@ -348,10 +349,11 @@ proof {
         Ins('before', 'Minimizer::minimize(Self', '''
 let ghost st_fin = states@;
 let ghost es_fin = end_states@;
+proof { lemma_targets_in_range(g, st_fin, reps, tset); assert(st_fin.len() < u32::MAX); }
 ''', label='from_nfa.final'),
         Tail('''
 proof {
-    let d0 = choose|d0: CompiledDfa| __res == #[trigger] spec_minimize(d0) && d0.states@ == st_fin && d0.end_states@ == es_fin
+    let d0 = choose|d0: CompiledDfa| #[trigger] min_of(d0, __res) && d0.states@ == st_fin && d0.end_states@ == es_fin
         && d0.terminal_ids@.len() == 1 && d0.terminal_ids@[0] == TerminalID(tt as u32) && d0.lookaheads@.len() == 0;
     assert(d0.terminal_ids@ =~= seq![TerminalID(tt as u32)]);
     lemma_reps_nodup(g, reps);
@@ -565,7 +567,7 @@ proof {
         mp_edits.append(Tail("""
 proof {
     let tids = Seq::new(mp_nfa.patterns@.len(), |i: int| TerminalID(mp_nfa.patterns@[i].token_type as u32));
-    let d0 = choose|d0: CompiledDfa| __res == #[trigger] spec_minimize(d0) && d0.states@ == st_fin && d0.end_states@ == es_fin
+    let d0 = choose|d0: CompiledDfa| #[trigger] min_of(d0, __res) && d0.states@ == st_fin && d0.end_states@ == es_fin
         && d0.terminal_ids@ =~= tids && d0.lookaheads@.len() == 0;
     lemma_reps_nodup(g, reps);
     lemma_elim_final(g, d0, reps, tset, acc);
@@ -577,12 +579,12 @@ proof {
 from_mp = Fn(F_DFA, 'From<MultiPatternNfa> for CompiledDfa', 'from', ret='r', rename='from__mp', impl_as='CompiledDfa', qual_as='CompiledDfa', props=P,
     attrs='#[verifier::loop_isolation(false)] #[verifier::allow_complex_invariants]',
     spec="""
-requires mp_wf(mp_nfa)
+requires mp_wf(mp_nfa), g_mp(mp_nfa).bound < u32::MAX
 ensures
-    // the automaton handed to the minimizer is the epsilon-elimination automaton of the union; token types in pattern order
+    // the automaton handed to the minimizer is the epsilon-elimination automaton of the union; token types in pattern order; the result is its quotient
     exists|d0: CompiledDfa, reps: Seq<StateID>| elim_ok(g_mp(mp_nfa), d0, reps)
         && d0.terminal_ids@ == Seq::new(mp_nfa.patterns@.len(), |i: int| TerminalID(mp_nfa.patterns@[i].token_type as u32))
-        && r == spec_minimize(d0),
+        && min_of(d0, r),
 """,
     edits=mp_edits)
 
@@ -652,7 +654,11 @@ pub assume_specification<T: PartialEq>[ <[T]>::contains ](s: &[T], x: &T) -> (r:
         RawFile('elim_nfa.rs'),
         RawFile('elim_mp.rs'),
         RawFile(os.path.join(HERE, '..', 'common', 'clsf.rs'), 'clsf.rs'),
+        RawFile(os.path.join(HERE, '..', 'common', 'dfa_lang.rs'), 'dfa_lang.rs'),
         RawFile('elim_lang.rs'),
+        RawFile(os.path.join(HERE, '..', 'u_mini', 'mini_spec.rs'), 'mini_spec.rs'),
+        Raw('pub struct Minimizer;', label='unit struct Minimizer'),
+        as_contract(umini.minimize, 'contract proved in unit U-mini'),
         C(sub.epsilon_closure), C(sub.get_match_transitions),
         C(sub.mp_epsilon_closure), C(sub.mp_get_match_transitions), C(sub.mp_find_nfa), C(sub.mp_is_accepting),
         Fn(F_NFA, 'Nfa', 'terminal_id', ret='r', props=P, spec='ensures r == self.pattern.token_type'),
